@@ -6,6 +6,7 @@ package main
 import (
 	"fmt"
 	"go/token"
+	"go/types"
 	"sort"
 	"strings"
 
@@ -468,6 +469,7 @@ func checkC13(p *Prog, r *Report) {
 	// ---- R13.2 status update after the session
 	ruleStatusAfterSession(p, r, "R13.2")
 	ruleTruthfulStatus(p, r, "R13.5")
+	rulePolicyOfTheCodeUsed(p, r)
 	r.Trusted = []string{"go/ssa construction", "both sides share the struct type status.status, so field names agree by construction"}
 	r.NotDec = "sufficiency of the two-slot encoding over all event histories; bzip2/removal cases at run time; clock monotonicity"
 }
@@ -776,4 +778,151 @@ func ruleTruthfulStatus(p *Prog, r *Report, rule string) {
 		}
 	}
 	r.add(rule, "end-text-failed|doapprove.Main", p.pos(fn.Pos()), "the END: text is FAILED when the session failed", okMsg, "history says OK after a failed session")
+}
+
+// rulePolicyOfTheCodeUsed: R13.7.
+func rulePolicyOfTheCodeUsed(p *Prog, r *Report) {
+	r.rule("R13.7", "The policy name recorded in a status slot is the policy whose code was handed to the device session: (a) in package status every value stored into the Policy field of an action derives from a parameter of the writing function (it is not looked up at write time, when `current` may already point to a newer policy); (b) at every call site of such a writer the policy argument and the code file argument of the device.ApproveOrCompare call in the same function derive from one and the same resolution of the `current` link (one call of filepath.EvalSymlinks / os.Readlink).")
+	// (a)
+	type wparam struct {
+		fn  *ssa.Function
+		idx int
+	}
+	var writers []wparam
+	nStores := 0
+	for _, fn := range allModFuncs(p) {
+		if pkgOfFunc(fn) != "status" {
+			continue
+		}
+		for _, b := range fn.Blocks {
+			for _, in := range b.Instrs {
+				st, ok := in.(*ssa.Store)
+				if !ok {
+					continue
+				}
+				fa, ok := st.Addr.(*ssa.FieldAddr)
+				if !ok || !strings.HasSuffix(fieldName(fa), "action.Policy") {
+					continue
+				}
+				nStores++
+				okP := true
+				var idxs []int
+				for _, rt := range valueRoots(st.Val) {
+					pa, isP := rt.(*ssa.Parameter)
+					if !isP || pa.Parent() != fn {
+						okP = false
+						continue
+					}
+					for i, q := range fn.Params {
+						if q == pa {
+							idxs = append(idxs, i)
+						}
+					}
+				}
+				r.add("R13.7", "policy-from-parameter|"+shortName(fn), p.ipos(st), "the recorded policy is a parameter of "+shortName(fn), okP && len(idxs) > 0,
+					"the recorded policy is determined when the status is written, not when the code was chosen: a policy switch during the session makes the status claim the new policy for old code")
+				for _, i := range idxs {
+					writers = append(writers, wparam{fn, i})
+				}
+			}
+		}
+	}
+	r.floor("R13.7", "stores into action.Policy", nStores, 2)
+	// (b)
+	closure := func(v ssa.Value) map[ssa.Value]bool {
+		seen := map[ssa.Value]bool{}
+		var walk func(x ssa.Value)
+		walk = func(x ssa.Value) {
+			if x == nil || seen[x] {
+				return
+			}
+			seen[x] = true
+			if in, ok := x.(ssa.Instruction); ok {
+				for _, op := range in.Operands(nil) {
+					if *op != nil {
+						walk(*op)
+					}
+				}
+			}
+			if u, ok := x.(*ssa.UnOp); ok && u.Op == token.MUL {
+				if vals, ok := cellValues(u.X); ok {
+					for _, sv := range vals {
+						walk(sv)
+					}
+				}
+			}
+			if al, ok := x.(*ssa.Alloc); ok && al.Referrers() != nil {
+				// elements stored into a local array (varargs)
+				for _, ref := range *al.Referrers() {
+					if ia, ok := ref.(*ssa.IndexAddr); ok && ia.Referrers() != nil {
+						for _, r2 := range *ia.Referrers() {
+							if st, ok := r2.(*ssa.Store); ok && st.Addr == ssa.Value(ia) {
+								walk(st.Val)
+							}
+						}
+					}
+				}
+			}
+		}
+		walk(v)
+		return seen
+	}
+	nSites := 0
+	done := map[string]bool{}
+	for _, w := range writers {
+		for _, e := range callersOf(p.CG(), w.fn) {
+			if e.Site == nil || !isModFunc(e.Caller.Func) || e.Caller.Func.Synthetic != "" {
+				continue
+			}
+			caller := e.Caller.Func
+			key := "same-resolution|" + shortName(caller) + "|" + shortName(w.fn)
+			if done[key] {
+				continue
+			}
+			done[key] = true
+			nSites++
+			args := e.Site.Common().Args
+			if w.idx >= len(args) {
+				r.fail("R13.7", key, p.ipos(e.Site), "argument not found", "")
+				continue
+			}
+			polSlice := closure(args[w.idx])
+			var codeSlices []map[ssa.Value]bool
+			for _, cs := range callsTo(caller, "device.ApproveOrCompare") {
+				for _, a := range cs.In.Common().Args {
+					if types.TypeString(a.Type(), nil) == "string" {
+						codeSlices = append(codeSlices, closure(a))
+					}
+				}
+			}
+			common, foreign := "", ""
+			for v := range polSlice {
+				c, ok := v.(*ssa.Call)
+				if !ok || c.Common().StaticCallee() == nil {
+					continue
+				}
+				n := shortName(c.Common().StaticCallee())
+				if n != "filepath.EvalSymlinks" && n != "path/filepath.EvalSymlinks" && n != "os.Readlink" {
+					continue
+				}
+				inAll := len(codeSlices) > 0
+				for _, cs := range codeSlices {
+					if !cs[v] {
+						inAll = false
+					}
+				}
+				if inAll {
+					common = n + " at " + p.ipos(c)
+				} else {
+					foreign = "the policy can also come from " + n + " at " + p.ipos(c) + ", which the code file does not derive from"
+				}
+			}
+			if foreign != "" {
+				common = ""
+			}
+			r.add("R13.7", key, p.ipos(e.Site), "policy argument and code file of the session derive from one resolution of `current` ("+common+")", common != "",
+				"the recorded policy and the code that was approved/compared can belong to different policies. "+foreign)
+		}
+	}
+	r.floor("R13.7", "call sites of status writers", nSites, 2)
 }
